@@ -7,6 +7,7 @@ package c01
 import (
 	"fmt"
 	"math/big"
+	"strconv"
 	"strings"
 
 	"github.com/invopop/gobl/l10n"
@@ -283,21 +284,41 @@ func hasBreakdown(d *calcproto.Doc) bool {
 func errorBound(c *core.Ctx, docs []*calcproto.Doc, res []Result) {
 	var reqs []string
 	var idx []int
+	// documents of more than 10 lines are outside the "ordinary-sized" claim of
+	// the oracle below; they are still sent to the driver so that those in the
+	// proved class are held to the proved bound (which has no size condition)
+	var large []bool
 	for i, d := range docs {
 		r := res[i]
-		if r.GoErr != "" || r.Skipped != "" || !r.Agree || effectiveRule(d) != "precise" || len(d.Lines) > 10 || len(d.Lines) == 0 {
+		if r.GoErr != "" || r.Skipped != "" || !r.Agree || effectiveRule(d) != "precise" || len(d.Lines) == 0 {
 			continue
 		}
 		if !ordinary(d) {
-			c.Count("error-bound:skipped-not-ordinary", 1)
+			if len(d.Lines) <= 10 {
+				c.Count("error-bound:skipped-not-ordinary", 1)
+			}
 			continue
 		}
 		reqs = append(reqs, "exactq "+strings.TrimPrefix(r.Req, "calc "))
 		idx = append(idx, i)
+		large = append(large, len(d.Lines) > 10)
 	}
 	out, err := c.ModelProp("C01", reqs)
 	if err != nil {
 		c.TieBroken("drive:C01/exactq", err.Error(), nil)
+		return
+	}
+	// the document class for which Props/C01 (calc_eq_spec, decided_class_bound)
+	// proves an explicit bound, decided by the driver (Spec/C01.lean inDocC,
+	// docWeight): on those documents the real output is also held to the
+	// proved bound  half a unit + weight/200 units.
+	creqs := make([]string, len(reqs))
+	for k, r := range reqs {
+		creqs[k] = "class " + strings.TrimPrefix(r, "exactq ")
+	}
+	cout, err := c.ModelProp("C01", creqs)
+	if err != nil {
+		c.TieBroken("drive:C01/class", err.Error(), nil)
 		return
 	}
 	names := []string{"sum", "discount", "charge", "tax_included", "total", "tax", "total_with_tax", "payable", "advance", "due"}
@@ -308,6 +329,13 @@ func errorBound(c *core.Ctx, docs []*calcproto.Doc, res []Result) {
 			c.TieBroken("drive:C01/exactq", "unexpected answer "+out[k], Case{d})
 			continue
 		}
+		cf := strings.Fields(cout[k])
+		if len(cf) != 3 || cf[0] != "ok" {
+			c.TieBroken("drive:C01/class", "unexpected answer "+cout[k], Case{d})
+			continue
+		}
+		inClass := cf[1] == "1"
+		weight, _ := strconv.ParseInt(cf[2], 10, 64)
 		inv := d.Invoice()
 		if inv.Calculate() != nil || inv.Totals == nil {
 			continue
@@ -319,7 +347,22 @@ func errorBound(c *core.Ctx, docs []*calcproto.Doc, res []Result) {
 		}
 		unit := new(big.Rat).SetFrac(big.NewInt(1), new(big.Int).Exp(big.NewInt(10), big.NewInt(int64(sub)), nil))
 		got := []*num.Amount{&t.Sum, t.Discount, t.Charge, t.TaxIncluded, &t.Total, &t.Tax, &t.TotalWithTax, &t.Payable, t.Advances, t.Due}
-		c.Count("error-bound:documents", 1)
+		if large[k] && !inClass {
+			continue
+		}
+		if large[k] {
+			c.Count("error-bound:in-proved-class-over-10-lines", 1)
+		} else {
+			c.Count("error-bound:documents", 1)
+		}
+		var proved *big.Rat
+		if inClass {
+			c.Count("error-bound:in-proved-class", 1)
+			if weight < 100 {
+				c.Count("error-bound:in-proved-class-weight<100", 1)
+			}
+			proved = new(big.Rat).Mul(unit, new(big.Rat).Add(big.NewRat(1, 2), big.NewRat(weight, 200)))
+		}
 		worst := new(big.Rat)
 		for j, a := range got {
 			if a == nil {
@@ -335,7 +378,10 @@ func errorBound(c *core.Ctx, docs []*calcproto.Doc, res []Result) {
 			if diff.Cmp(worst) > 0 {
 				worst.Set(diff)
 			}
-			if diff.Cmp(unit) >= 0 {
+			if proved != nil && diff.Cmp(proved) > 0 {
+				c.TieBroken("theorem:C01/decided_class_bound", fmt.Sprintf("totals.%s = %s is further from the unrounded exact value %s than the bound proved for the document class (weight %d)", names[j], a.String(), want.FloatString(int(sub)+6), weight), Case{d})
+			}
+			if diff.Cmp(unit) >= 0 && !large[k] {
 				cls := ""
 				switch {
 				case hasForeignConversion(d):
@@ -350,7 +396,7 @@ func errorBound(c *core.Ctx, docs []*calcproto.Doc, res []Result) {
 			}
 		}
 		half := new(big.Rat).Mul(unit, big.NewRat(1, 2))
-		if worst.Cmp(half) > 0 {
+		if worst.Cmp(half) > 0 && !large[k] {
 			c.Count("error-bound:over-half-unit", 1)
 		}
 	}
